@@ -920,6 +920,11 @@ pub fn dec_grid(thorough: bool) -> Vec<DecCase> {
 }
 
 pub fn replay(v: &serde_json::Value) -> Vec<Violation> {
+    if v["check"] == "close" {
+        let cci: u128 = v["case"]["cci"].as_str().unwrap().parse().unwrap();
+        let tsi = v["case"]["tsi"].as_u64().unwrap();
+        return check_close_session(cci, tsi).into_iter().map(|(key, what)| Violation { key, what, case: v.clone() }).collect();
+    }
     let r: Vec<(String, String)> = if v["check"] == "encode" {
         check_encode(&serde_json::from_value(v["case"].clone()).expect("case"))
     } else {
@@ -928,8 +933,46 @@ pub fn replay(v: &serde_json::Value) -> Vec<Violation> {
     r.into_iter().map(|(key, what)| Violation { key, what, case: v.clone() }).collect()
 }
 
+/// the close-session packet the sender side builds: must carry A, the TSI and the CCI, and parse back
+pub fn check_close_session(cci: u128, tsi: u64) -> Option<(String, String)> {
+    let bytes = match catch(|| flute::verif::new_alc_pkt_close_session(&cci, tsi)) {
+        Ok(b) => b,
+        Err(p) => return Some((format!("C06/encode-panic/{}", panic_sig(&p)), format!("new_alc_pkt_close_session panicked: {}", p))),
+    };
+    let r = match rfc::decode(&bytes) {
+        Ok(r) => r,
+        Err(e) => return Some(("C06/close-session/undecodable".into(), format!("independent decoder rejects the close-session packet: {} ({})", e, hex(&bytes)))),
+    };
+    if !r.a || r.tsi != tsi || r.cci != cci || r.version != 1 {
+        return Some(("C06/close-session/fields".into(), format!("close-session packet decodes to A={} tsi={} cci={} (built with tsi={} cci={})", r.a, r.tsi, r.cci, tsi, cci)));
+    }
+    let back = catch(|| flute::core::alc::parse_alc_pkt(&bytes).map(|p| (p.lct.close_session, p.lct.tsi, p.lct.cci, p.lct.toi)).map_err(|e| e.0.to_string()));
+    match back {
+        Err(p) => Some((format!("C06/roundtrip-panic/{}", panic_sig(&p)), format!("flute panicked parsing its own close-session packet: {}", p))),
+        Ok(Err(e)) => Some(("C06/roundtrip/rejected/close-session".into(), format!("flute rejects the close-session packet it builds: {} ({})", e, hex(&bytes)))),
+        Ok(Ok((a, t, c, toi))) => {
+            if !a || t != tsi || c != cci || toi != 0 {
+                Some(("C06/roundtrip/close-session".into(), format!("flute parsed its close-session packet as A={} tsi={} cci={} toi={}", a, t, c, toi)))
+            } else {
+                None
+            }
+        }
+    }
+}
+
 pub fn run(thorough: bool) -> i32 {
     let mut rep = Report::new("C06", "exploration", if thorough { "thorough" } else { "quick" });
+    for cb in [0u32, 4, 8, 12, 16] {
+        for tb in [0u32, 2, 4, 6] {
+            for cci in class_values(cb) {
+                for tsi in class_values(tb) {
+                    if let Some((k, w)) = check_close_session(cci, tsi as u64) {
+                        rep.add(Violation { key: k, what: w, case: json!({"check": "close", "case": {"cci": cci.to_string(), "tsi": tsi as u64}}) });
+                    }
+                }
+            }
+        }
+    }
     let enc = enc_grid(thorough);
     let dec = dec_grid(thorough);
     let eres = par_map(&enc, |_, c| check_encode(c));
